@@ -1451,7 +1451,9 @@ func (g Gateway) Count(ctx context.Context, in *hydrapb.CountRequest) (*hydrapb.
 				"swamp", swampIdentifier.GetSwampName(),
 				"error", err)
 			// Ellenőrizzük, hogy a hiba állapota 'NotFound' kódú-e
-			if st, ok := status.FromError(err); ok && st.Code() == codes.NotFound {
+			// checkSwampName reports a missing swamp as FailedPrecondition (this used to test for NotFound,
+			// so a missing swamp failed the whole request instead of being answered with IsExist = false)
+			if st, ok := status.FromError(err); ok && st.Code() == codes.FailedPrecondition {
 				// this is not an error, just a swamp that does not exist
 				response = append(response, &hydrapb.CountSwamp{
 					SwampName: swampIdentifier.GetSwampName(),
